@@ -410,10 +410,11 @@ numtext = st.one_of(
     st.tuples(st.integers(1, 99), st.integers(1, 3)).map(lambda t: "%de-%d" % t),
     st.sampled_from(["-1", "-0.5", ".5", "5.", "1_0", " 7", "0x10", "inf", "nan"]),
 )
-case_time = st.fixed_dictionaries({
-    "num": numtext, "suffix": st.sampled_from(list(UNITS)), "upper": st.booleans(), "space": st.booleans(),
-    "fn": st.sampled_from(["ms", "secs"]), "as_number": st.booleans(),
-})
+# (a tuple mapped to a dict rather than fixed_dictionaries: Hypothesis cannot replay fixed_dictionaries with four or
+# more keys from a raw byte buffer, which would make the coverage-guided campaign reject every input)
+case_time = st.tuples(numtext, st.sampled_from(list(UNITS)), st.booleans(), st.booleans(),
+                      st.sampled_from(["ms", "secs"]), st.booleans()).map(
+    lambda t: dict(zip(("num", "suffix", "upper", "space", "fn", "as_number"), t)))
 
 
 def check_time(case):
@@ -462,5 +463,6 @@ def check_time(case):
 
 SUBCHECKS = [
     SubCheck("sections", case_sections, check_sections, quick=24000, thorough=600000, procs_quick=10),
-    SubCheck("time", lambda: case_time, check_time, quick=6000, thorough=200000, procs_quick=2),
+    SubCheck("time", lambda: case_time, check_time, quick=6000, thorough=200000, procs_quick=2,
+             fuzz={"quick": 4000, "thorough": 300000, "modules": ['mpf.core.utility_functions', 'mpf.core.config_validator']}),
 ]
